@@ -105,13 +105,15 @@ func NewRegistry() *Registry {
 		"(define-fun wrapu ((x Int)) Int (mod x 18446744073709551616))",
 		"(declare-fun str_lower (Str) Str)", "(declare-fun str_upper (Str) Str)",
 		"(declare-fun str_concat (Str Str) Str)",
+		"(declare-fun sidx (Int Int) Int)",
 	)
 	r.axioms = append(r.axioms,
 		"(assert (forall ((u Unit)) (= u unit)))",
+		"(assert (forall ((o Int) (i Int)) (! (= (sidx o i) (+ o i)) :pattern ((sidx o i)))))",
 		"(assert (= (str_lower str_empty) str_empty))",
 		"(assert (forall ((s Str)) (! (= (str_lower (str_lower s)) (str_lower s)) :pattern ((str_lower (str_lower s))))))",
 	)
-	for _, n := range []string{"Any", "Str", "SRef", "RV", "RT", "Fn", "Unit", "Slice", "tag", "wrap32", "wrap8"} {
+	for _, n := range []string{"Any", "Str", "SRef", "RV", "RT", "Fn", "Unit", "Slice", "tag", "wrap32", "wrap8", "sidx"} {
 		r.declared[n] = true
 	}
 	return r
